@@ -665,6 +665,257 @@ Proof.
   repeat split; reflexivity.
 Qed.
 
+(* ------------------------------------------- symbolic_binary_op on tensors *)
+Lemma omap_sound s (g : expr -> option expr) (gz : Z -> option Z) :
+  (forall y vy e r, expr_cons s y vy = true -> g y = Some e -> gz vy = Some r -> claim s e r = true) ->
+  forall lb vb l d, all2 (expr_cons s) lb vb = true -> omap g lb = Some l -> omapz gz vb = Some d ->
+    all2 (claim s) l d = true /\ length l = length lb.
+Proof.
+  intros H. induction lb as [|y lb IH]; intros [|vy vb] l d A O Z0; cbn [all2 omap omapz] in *; try discriminate.
+  - inv O. inv Z0. split; reflexivity.
+  - apply andb_prop in A as [A1 A2].
+    destruct (g y) as [e|] eqn:Eg; [|discriminate]. destruct (omap g lb) as [rl|] eqn:Er; [|discriminate]. inv O.
+    destruct (gz vy) as [r|] eqn:Ez; [|discriminate]. destruct (omapz gz vb) as [rd|] eqn:Ed; [|discriminate]. inv Z0.
+    destruct (IH vb rl rd A2 eq_refl Ed) as [I1 I2]. cbn [all2 length]. rewrite (H _ _ _ _ A1 Eg Ez), I1, I2. split; reflexivity.
+Qed.
+
+Lemma omap2_sound s f fz : elem_sound f fz ->
+  forall la va lb vb l d, all2 (expr_cons s) la va = true -> all2 (expr_cons s) lb vb = true ->
+    omap2 f la lb = Some l -> zip_with fz va vb = Some d ->
+    all2 (claim s) l d = true /\ length l = Nat.min (length la) (length lb).
+Proof.
+  intros ES. induction la as [|x la IH]; intros va lb vb l d A B O Z0.
+  - destruct va; [|discriminate]. cbn [omap2 zip_with] in *. inv O. inv Z0. split; reflexivity.
+  - destruct va as [|vx va]; [discriminate|]. cbn [all2] in A. apply andb_prop in A as [A1 A2].
+    destruct lb as [|y lb].
+    + destruct vb; [|discriminate]. cbn [omap2 zip_with] in *. inv O. inv Z0. split; reflexivity.
+    + destruct vb as [|vy vb]; [discriminate|]. cbn [all2] in B. apply andb_prop in B as [B1 B2].
+      cbn [omap2 zip_with] in *.
+      destruct (f x y) as [e|] eqn:Ef; [|discriminate]. destruct (omap2 f la lb) as [rl|] eqn:Er; [|discriminate]. inv O.
+      destruct (fz vx vy) as [r|] eqn:Ez; [|discriminate]. destruct (zip_with fz va vb) as [rd|] eqn:Ed; [|discriminate]. inv Z0.
+      destruct (IH va lb vb rl rd A2 B2 Er Ed) as [I1 I2].
+      cbn [all2 length Nat.min]. rewrite (ES s x y vx vy e r A1 B1 Ef Ez), I1, I2. split; reflexivity.
+Qed.
+
+(* a consistent value-carrying tensor: its data and the two possible shapes *)
+Lemma values_cons s t c vals :
+  consistent s t c = true -> t_values t = Some vals ->
+  exists d, c_data c = Some d /\ all2 (expr_cons s) vals d = true /\
+            ((c_shape c = [] /\ exists e, t = TScalar e /\ vals = [e]) \/
+             (c_shape c = [zlen vals] /\ t = TVector vals)).
+Proof.
+  intros C V. destruct t; cbn [t_values] in V; inv V; cbn [consistent] in C.
+  - destruct (c_shape c); [|discriminate]. destruct (c_data c) as [[|v [|? ?]]|]; try discriminate.
+    exists [v]. cbn [all2]. rewrite C. repeat split; eauto.
+  - destruct (c_shape c) as [|n [|? ?]]; try discriminate. destruct (c_data c) as [d|]; [|discriminate].
+    apply andb_prop in C as [C C3]. apply andb_prop in C as [C1 C2]. apply Z.eqb_eq in C1. subst n.
+    exists d. repeat split; auto.
+Qed.
+
+Lemma bcast_shapes_nil_r n : bcast_shapes [n] [] = Some [n].
+Proof.
+  unfold bcast_shapes, pad_z. cbn [length Nat.max Nat.sub repeat app bcast_zs]. unfold bcast_z.
+  destruct (n =? 1) eqn:E; [reflexivity|]. reflexivity.
+Qed.
+Lemma bcast_shapes_nil_l n : bcast_shapes [] [n] = Some [n].
+Proof.
+  unfold bcast_shapes, pad_z. cbn [length Nat.max Nat.sub repeat app bcast_zs]. unfold bcast_z.
+  destruct (1 =? n) eqn:E; [apply Z.eqb_eq in E; subst; reflexivity|]. reflexivity.
+Qed.
+
+Lemma zlen_eq {A B} (f : A -> B -> bool) a b : all2 f a b = true -> zlen a = zlen b.
+Proof. intros H. unfold zlen. rewrite (all2_length _ _ _ H). reflexivity. Qed.
+
+Lemma sel_omap f la lb :
+  match la, lb with
+  | [x], _ => omap (fun y => f x y) lb
+  | _, [y] => omap (fun x => f x y) la
+  | _, _ => omap2 f la lb
+  end =
+  match la with
+  | [x] => omap (fun y => f x y) lb
+  | _ => match lb with [y] => omap (fun x => f x y) la | _ => omap2 f la lb end
+  end.
+Proof. destruct la as [|? [|? ?]]; destruct lb as [|? [|? ?]]; reflexivity. Qed.
+Lemma sel_omapz (fz : Z -> Z -> option Z) va vb :
+  match va, vb with
+  | [x], _ => omapz (fun y => fz x y) vb
+  | _, [y] => omapz (fun x => fz x y) va
+  | _, _ => zip_with fz va vb
+  end =
+  match va with
+  | [x] => omapz (fun y => fz x y) vb
+  | _ => match vb with [y] => omapz (fun x => fz x y) va | _ => zip_with fz va vb end
+  end.
+Proof. destruct va as [|? [|? ?]]; destruct vb as [|? [|? ?]]; reflexivity. Qed.
+Lemma bcast_shapes_11 m n :
+  bcast_shapes [m] [n] = match bcast_z m n with Some k => Some [k] | None => None end.
+Proof. unfold bcast_shapes, pad_z. cbn [length Nat.max Nat.sub repeat app bcast_zs]. destruct (bcast_z m n); reflexivity. Qed.
+
+Ltac kill_eqb H :=
+  repeat match type of H with context [?a =? ?b] =>
+    let E := fresh "E" in destruct (a =? b) eqn:E; [apply Z.eqb_eq in E; lia|] end.
+
+Lemma sym_binop_sound s f fz (ES : elem_sound f fz) ta tb ca cb t c :
+  consistent s ta ca = true -> consistent s tb cb = true ->
+  sym_binop f ta tb = Some t -> exec_elementwise fz ca cb = Some [c] -> claims s t c = true.
+Proof.
+  intros Ca Cb SB EX. unfold exec_elementwise in EX.
+  assert (EL : forall x vx, expr_cons s x vx = true ->
+            forall y vy e r, expr_cons s y vy = true -> f x y = Some e -> fz vx vy = Some r -> claim s e r = true)
+    by (intros x vx Hx y vy e r Hy Hf Hz; exact (ES s x y vx vy e r Hx Hy Hf Hz)).
+  assert (ER : forall y vy, expr_cons s y vy = true ->
+            forall x vx e r, expr_cons s x vx = true -> f x y = Some e -> fz vx vy = Some r -> claim s e r = true)
+    by (intros y vy Hy x vx e r Hx Hf Hz; exact (ES s x y vx vy e r Hx Hy Hf Hz)).
+  destruct ta as [x|la| |]; destruct tb as [y|lb| |]; cbn [sym_binop t_values] in SB; try discriminate.
+  - (* scalar, scalar *)
+    destruct (f x y) as [e|] eqn:Ef; [|discriminate]. inv SB. cbn [consistent] in Ca, Cb.
+    destruct (c_shape ca); [|discriminate]. destruct (c_data ca) as [[|vx [|? ?]]|]; try discriminate.
+    destruct (c_shape cb); [|discriminate]. destruct (c_data cb) as [[|vy [|? ?]]|]; try discriminate.
+    change (bcast_shapes [] []) with (Some (@nil Z)) in EX. cbn [length Nat.leb bcast_data omapz] in EX.
+    destruct (fz vx vy) as [r|] eqn:Ez; [|discriminate]. inv EX. cbn [claims c_shape c_data]. exact (ES s x y vx vy e r Ca Cb Ef Ez).
+  - (* scalar, vector *)
+    cbn [consistent] in Ca, Cb.
+    destruct (c_shape ca); [|discriminate]. destruct (c_data ca) as [[|vx [|? ?]]|]; try discriminate.
+    destruct (c_shape cb) as [|n [|? ?]]; try discriminate. destruct (c_data cb) as [vb|]; [|discriminate].
+    apply andb_prop in Cb as [Cb Cb3]. apply andb_prop in Cb as [Cb1 Cb2]. apply Z.eqb_eq in Cb1. subst n.
+    rewrite bcast_shapes_nil_l in EX. cbn [length Nat.leb bcast_data] in EX.
+    destruct (omap (fun y => f x y) lb) as [l|] eqn:Eo; [|discriminate]. inv SB.
+    destruct (omapz (fun y => fz vx y) vb) as [d|] eqn:Ed; [|discriminate]. inv EX.
+    destruct (omap_sound s (fun y => f x y) (fun y => fz vx y) (EL x vx Ca) lb vb l d Cb3 Eo Ed) as [H1 H2].
+    cbn [claims c_shape c_data]. unfold zlen. rewrite H2, Z.eqb_refl. exact H1.
+  - (* vector, scalar *)
+    cbn [consistent] in Ca, Cb.
+    destruct (c_shape cb); [|discriminate]. destruct (c_data cb) as [[|vy [|? ?]]|]; try discriminate.
+    destruct (c_shape ca) as [|n [|? ?]]; try discriminate. destruct (c_data ca) as [va|]; [|discriminate].
+    apply andb_prop in Ca as [Ca Ca3]. apply andb_prop in Ca as [Ca1 Ca2]. apply Z.eqb_eq in Ca1. subst n.
+    rewrite bcast_shapes_nil_r in EX. cbn [length Nat.leb bcast_data] in EX.
+    assert (G : exists l, t = TVector l /\ omap (fun x => f x y) la = Some l).
+    { destruct la as [|x0 [|x1 la']].
+      - cbn [omap] in SB |- *. inv SB. eauto.
+      - cbn [omap] in SB |- *. destruct (f x0 y); [|discriminate]. inv SB. eauto.
+      - destruct (omap (fun x => f x y) (x0 :: x1 :: la')) as [l0|] eqn:E; [|discriminate]. inv SB. eauto. }
+    destruct G as (l & -> & Eo).
+    destruct (omapz (fun x => fz x vy) va) as [d|] eqn:Ed; [|discriminate]. inv EX.
+    destruct (omap_sound s (fun x => f x y) (fun x => fz x vy) (fun x0 vx0 e r Hc => ER y vy Cb x0 vx0 e r Hc) la va l d Ca3 Eo Ed) as [H1 H2].
+    cbn [claims c_shape c_data]. unfold zlen. rewrite H2, Z.eqb_refl. exact H1.
+  - (* vector, vector *)
+    cbn [consistent] in Ca, Cb.
+    destruct (c_shape ca) as [|m [|? ?]]; try discriminate. destruct (c_data ca) as [va|]; [|discriminate].
+    apply andb_prop in Ca as [Ca Ca3]. apply andb_prop in Ca as [Ca1 Ca2]. apply Z.eqb_eq in Ca1. subst m.
+    destruct (c_shape cb) as [|n [|? ?]]; try discriminate. destruct (c_data cb) as [vb|]; [|discriminate].
+    apply andb_prop in Cb as [Cb Cb3]. apply andb_prop in Cb as [Cb1 Cb2]. apply Z.eqb_eq in Cb1. subst n.
+    rewrite bcast_shapes_11 in EX.
+    destruct (bcast_z (zlen la) (zlen lb)) as [k|] eqn:Ek; [|discriminate].
+    cbn [length Nat.leb bcast_data] in EX.
+    assert (La := all2_length _ _ _ Ca3). assert (Lb := all2_length _ _ _ Cb3).
+    unfold bcast_z in Ek. unfold zlen in *.
+    destruct la as [|x0 [|x1 la']]; destruct va as [|vx0 [|vx1 va']]; try discriminate; cbv beta iota in SB, EX.
+    + (* la = [] *)
+      destruct lb as [|y0 [|y1 lb']]; destruct vb as [|vy0 [|vy1 vb']]; try discriminate; cbv beta iota in SB, EX.
+      * cbn in SB, EX. inv SB. inv EX. cbn in Ek. inv Ek. reflexivity.
+      * cbn in SB, EX. inv SB. inv EX. cbn in Ek. inv Ek. reflexivity.
+      * cbn [omap2 zip_with] in SB, EX. inv SB. inv EX. cbn [length] in Ek.
+        exfalso. kill_eqb Ek. discriminate.
+    + (* la = [x0] *)
+      cbn [all2] in Ca3. apply andb_prop in Ca3 as [Cx _].
+      destruct (omap (fun y => f x0 y) lb) as [l|] eqn:Eo; [|discriminate]. inv SB.
+      destruct (omapz (fun y => fz vx0 y) vb) as [d|] eqn:Ed; [|discriminate]. inv EX.
+      destruct (omap_sound s (fun y => f x0 y) (fun y => fz vx0 y) (EL x0 vx0 Cx) lb vb l d Cb3 Eo Ed) as [H1 H2].
+      cbn [claims c_shape c_data]. unfold zlen. rewrite H2.
+      assert (k = Z.of_nat (length lb)).
+      { cbn [length] in Ek. destruct (Z.of_nat 1 =? Z.of_nat (length lb)) eqn:E1; [apply Z.eqb_eq in E1; inv Ek; lia|]. cbn in Ek. inv Ek. reflexivity. }
+      subst k. rewrite Z.eqb_refl. exact H1.
+    + (* la has >= 2 elements *)
+      destruct lb as [|y0 [|y1 lb']]; destruct vb as [|vy0 [|vy1 vb']]; try discriminate; cbv beta iota in SB, EX.
+      * cbn [omap2 zip_with] in SB, EX. inv SB. inv EX. cbn [length] in Ek.
+        exfalso. kill_eqb Ek. discriminate.
+      * (* lb = [y0] *)
+        cbn [all2] in Cb3. apply andb_prop in Cb3 as [Cy _].
+        destruct (omap (fun x => f x y0) (x0 :: x1 :: la')) as [l|] eqn:Eo; [|discriminate]. inv SB.
+        destruct (omapz (fun x => fz x vy0) (vx0 :: vx1 :: va')) as [d|] eqn:Ed; [|discriminate]. inv EX.
+        destruct (omap_sound s (fun x => f x y0) (fun x => fz x vy0) (fun a va0 e r Hc => ER y0 vy0 Cy a va0 e r Hc) _ _ l d Ca3 Eo Ed) as [H1 H2].
+        cbn [claims c_shape c_data]. unfold zlen. rewrite H2.
+        assert (k = Z.of_nat (length (x0 :: x1 :: la'))).
+        { cbn [length] in Ek |- *. destruct (Z.of_nat (S (S (length la'))) =? Z.of_nat 1) eqn:E1; [apply Z.eqb_eq in E1; lia|].
+          destruct (Z.of_nat (S (S (length la'))) =? 1) eqn:E2; [apply Z.eqb_eq in E2; lia|]. cbn in Ek. inv Ek. reflexivity. }
+        subst k. rewrite Z.eqb_refl. exact H1.
+      * (* both have >= 2 elements *)
+        destruct (omap2 f (x0 :: x1 :: la') (y0 :: y1 :: lb')) as [l|] eqn:Eo; [|discriminate]. inv SB.
+        destruct (zip_with fz (vx0 :: vx1 :: va') (vy0 :: vy1 :: vb')) as [d|] eqn:Ed; [|discriminate]. inv EX.
+        destruct (omap2_sound s f fz ES _ _ _ _ l d Ca3 Cb3 Eo Ed) as [H1 H2].
+        cbn [claims c_shape c_data]. unfold zlen. rewrite H2.
+        assert (k = Z.of_nat (Nat.min (length (x0 :: x1 :: la')) (length (y0 :: y1 :: lb')))).
+        { cbn [length] in Ek |- *.
+          destruct (Z.of_nat (S (S (length la'))) =? Z.of_nat (S (S (length lb')))) eqn:E1.
+          - apply Z.eqb_eq in E1. inv Ek. lia.
+          - destruct (Z.of_nat (S (S (length la'))) =? 1) eqn:E2; [apply Z.eqb_eq in E2; lia|].
+            destruct (Z.of_nat (S (S (length lb'))) =? 1) eqn:E3; [apply Z.eqb_eq in E3; lia|]. discriminate. }
+        subst k. rewrite Z.eqb_refl. exact H1.
+Qed.
+
+Lemma exec_elementwise_shape fz a b couts :
+  exec_elementwise fz a b = Some couts ->
+  exists c, couts = [c] /\ bcast_shapes (c_shape a) (c_shape b) = Some (c_shape c).
+Proof.
+  unfold exec_elementwise. destruct (bcast_shapes (c_shape a) (c_shape b)) as [sz|]; [|discriminate].
+  destruct (c_data a); destruct (c_data b); try (intros H; inv H; eexists; split; reflexivity).
+  destruct (Nat.leb (length sz) 1); [|intros H; inv H; eexists; split; reflexivity].
+  destruct (bcast_data fz (c_shape a) (c_shape b) l l0); intros H; inv H. eexists; split; reflexivity.
+Qed.
+
+Lemma infer_arith_sound s f fz (ES : elem_sound f fz) ins cins outs couts a b :
+  all2 (consistent_in s) ins cins = true ->
+  infer_arith f ins = IOk outs ->
+  cin cins 0 = Some a -> cin cins 1 = Some b -> exec_elementwise fz a b = Some couts ->
+  f70_free2 cins ->
+  claims_all s outs couts = true.
+Proof.
+  intros A I Ea Eb EX F. unfold infer_arith in I.
+  destruct (input ins 0) as [ta|] eqn:E0; [|discriminate].
+  destruct (input ins 1) as [tb|] eqn:E1; [|discriminate].
+  destruct (cons_input _ _ _ _ _ A E0) as (a' & Ea' & Ca). destruct (cons_input _ _ _ _ _ A E1) as (b' & Eb' & Cb).
+  rewrite Ea in Ea'. inv Ea'. rewrite Eb in Eb'. inv Eb'.
+  destruct (exec_elementwise_shape _ _ _ _ EX) as (c & -> & Hs).
+  destruct (sym_binop f ta tb) as [t|] eqn:SB.
+  - inv I. apply claims_all_one. exact (sym_binop_sound s f fz ES ta tb a' b' t c Ca Cb SB EX).
+  - eapply (binary_op_sound s ta tb a' b' outs (c_shape c) Ca Cb I Hs (F _ _ Ea Eb)). reflexivity.
+Qed.
+
+Theorem infer_sound_Add v : sound_for v OAdd (fun cins _ => f70_free2 cins).
+Proof.
+  intros s ins cins outs couts A I E F. cbn [infer_with] in I. cbn [exec_ref] in E.
+  destruct (cin cins 0) as [a|] eqn:Ea; [|discriminate]. destruct (cin cins 1) as [b|] eqn:Eb; [|discriminate].
+  eapply (infer_arith_sound s f_add z_add f_add_sound); eauto.
+Qed.
+Theorem infer_sound_Sub v : sound_for v OSub (fun cins _ => f70_free2 cins).
+Proof.
+  intros s ins cins outs couts A I E F. cbn [infer_with] in I. cbn [exec_ref] in E.
+  destruct (cin cins 0) as [a|] eqn:Ea; [|discriminate]. destruct (cin cins 1) as [b|] eqn:Eb; [|discriminate].
+  eapply (infer_arith_sound s f_sub z_sub f_sub_sound); eauto.
+Qed.
+Theorem infer_sound_Mul v : sound_for v OMul (fun cins _ => f70_free2 cins).
+Proof.
+  intros s ins cins outs couts A I E F. cbn [infer_with] in I. cbn [exec_ref] in E.
+  destruct (cin cins 0) as [a|] eqn:Ea; [|discriminate]. destruct (cin cins 1) as [b|] eqn:Eb; [|discriminate].
+  eapply (infer_arith_sound s f_mul z_mul f_mul_sound); eauto.
+Qed.
+Theorem infer_sound_Div v : sound_for v ODiv (fun cins _ => f70_free2 cins).
+Proof.
+  intros s ins cins outs couts A I E F. cbn [infer_with] in I. cbn [exec_ref] in E.
+  destruct (cin cins 0) as [a|] eqn:Ea; [|discriminate]. destruct (cin cins 1) as [b|] eqn:Eb; [|discriminate].
+  destruct (v_divx v).
+  - eapply (infer_arith_sound s f_div_x z_div f_div_x_sound); eauto.
+  - eapply (infer_arith_sound s f_div z_div f_div_sound); eauto.
+Qed.
+(* Equal: for every code version whose SymExpr::range is the fixed one *)
+Theorem infer_sound_Equal v : v_range v = range -> sound_for v OEqual (fun cins _ => f70_free2 cins).
+Proof.
+  intros R s ins cins outs couts A I E F. cbn [infer_with] in I. rewrite R in I. cbn [exec_ref] in E.
+  destruct (cin cins 0) as [a|] eqn:Ea; [|discriminate]. destruct (cin cins 1) as [b|] eqn:Eb; [|discriminate].
+  eapply (infer_arith_sound s (f_equal range) z_eq f_equal_sound); eauto.
+Qed.
+
 (* ------------------------------------------------------------ the check's oracle *)
 Lemma prop_ok_reject c :
   prop_ok c = false ->
